@@ -17,6 +17,12 @@ def check_case(case, info=None):
     ev = pc.evaluate(case)
     fails = []
     if ev.exception is not None:
+        if float(case['config']['unary_penalty']) < 0:
+            # a library that refuses a negative penalty returns no tree, so no score is wrong: if the same call is
+            # accepted with the penalty's absolute value, the case is outside what the library accepts
+            ev2 = pc.evaluate(dict(case, config=dict(case['config'], unary_penalty=abs(case['config']['unary_penalty']))))
+            if ev2.exception is None:
+                raise runner.OutOfDomain('negative unary penalties are refused')
         return [(f'{PROPERTY}/parser-raises/{type(ev.exception).__name__}', str(ev.exception))]
     fails += pc.score_fails(ev, PROPERTY)
     fails += pc.placeholder_score_fails(ev, PROPERTY)
